@@ -462,3 +462,170 @@ func vh_C06_front_signature_Q() {
 		}
 	}
 }
+
+// ---- C07 through the front end: components.schemas against the Go declarations
+
+var vhFrontFieldTypes = []string{"string", "Leaf", "*Leaf", "[]Leaf", "Color", "ID", "*Inner", "map[string]Leaf", "time.Time", "[]byte", "[][]Leaf"}
+
+// the named types of this package a type expression refers to
+func vhFrontDeps(t string) []string {
+	switch t {
+	case "Leaf", "*Leaf", "[]Leaf", "map[string]Leaf", "[][]Leaf":
+		return []string{"Leaf"}
+	case "Color":
+		return []string{"Color"}
+	case "ID":
+		return []string{"ID"}
+	case "Inner", "*Inner", "[]Inner":
+		return []string{"Inner"}
+	}
+	return nil
+}
+
+func vhFrontModelSource(f0, f1, param, ret string) string {
+	return `package ctl
+
+import (
+	"time"
+
+	"github.com/gopher-fleece/runtime"
+)
+
+var _ time.Time
+
+type Leaf struct {
+	V int ` + "`json:\"v\"`" + `
+}
+
+type Unused struct {
+	Z Leaf
+}
+
+type Color string
+
+const (
+	Red  Color = "red"
+	blue Color = "blue"
+)
+
+type ID string
+
+type Base struct {
+	Id ID ` + "`json:\"id\"`" + `
+}
+
+type Inner struct {
+	Base
+	Name   string ` + "`json:\"name\" validate:\"required\"`" + `
+	hidden int
+	Skip   Color ` + "`json:\"-\"`" + `
+	F0     ` + f0 + `
+	F1     ` + f1 + ` ` + "`json:\"f1\"`" + `
+}
+
+// @Route(/c)
+type Ctl struct {
+	runtime.GleeceController
+}
+
+// @Method(POST)
+// @Route(/op)
+// @Body(b)
+func (c *Ctl) Op(b ` + param + `) (` + ret + `, error) {
+	var r ` + ret + `
+	return r, nil
+}
+`
+}
+
+func vh_C07_front_models_Q() {
+	nT := len(vhFrontFieldTypes)
+	f0 := vhFrontFieldTypes[symxChoice("f0", nT)]
+	f1 := vhFrontFieldTypes[symxChoice("f1", nT)]
+	param := []string{"Inner", "Leaf", "[]Inner"}[symxChoice("param", 3)]
+	ret := []string{"string", "Leaf", "Color", "[]Inner"}[symxChoice("ret", 4)]
+	fr, err := visitors.VhLoadSource(vhFrontModelSource(f0, f1, param, ret), nil)
+	symxAssert(err == nil, "C07.front.fixture-loads")
+	if err != nil {
+		return
+	}
+	meta, err := pipeline.VhNewPipeline(fr, vhFrontConfig()).Run()
+	if err != nil {
+		symxRecord("refused", err.Error())
+	}
+	symxAssert(err == nil, "C07.front.project-is-accepted")
+	if err != nil {
+		return
+	}
+	doc30, doc31 := vhNewDoc30(), vhNewDoc31()
+	symxAssert(swagen30.GenerateModelsSpec(doc30, &meta.Models) == nil && swagen31.GenerateModelsSpec(doc31, &meta.Models) == nil, "C07.front.models-no-error")
+	symxCover("C07.front.components-built")
+	// reference: closure of the named types reachable from the route
+	reach := map[string]bool{}
+	var visit func(name string)
+	visit = func(name string) {
+		if reach[name] {
+			return
+		}
+		reach[name] = true
+		switch name {
+		case "Inner":
+			visit("Base")
+			visit("Color") // through Skip: a field tagged json:"-" is still a field of the declaration (its type is kept; it is not a property)
+			for _, t := range []string{f0, f1} {
+				for _, d := range vhFrontDeps(t) {
+					visit(d)
+				}
+			}
+		case "Base":
+			visit("ID")
+		}
+	}
+	for _, t := range []string{param, ret} {
+		for _, d := range vhFrontDeps(t) {
+			visit(d)
+		}
+	}
+	var want []string
+	for _, n := range []string{"Base", "Color", "ID", "Inner", "Leaf"} {
+		if reach[n] {
+			want = append(want, n)
+		}
+	}
+	want = vhSortStrings(want)
+	// the RFC-7807 model is not a model of the project: the spec writer adds it when some route returns a plain error
+	symxAssert(meta.PlainErrorPresent, "C07.front.plain-error-return-is-flagged-for-the-rfc7807-model")
+	var got30, got31 []string
+	for n := range doc30.Components.Schemas {
+		got30 = append(got30, n)
+	}
+	for n := range doc31.Components.Schemas.KeysFromOldest() {
+		got31 = append(got31, n)
+	}
+	symxRecord("components", strings.Join(vhSortStrings(got30), ","))
+	symxAssert(vhSameStrings(vhSortStrings(got30), want), "C07.front.30.one-component-per-reachable-type-and-no-others")
+	symxAssert(vhSameStrings(vhSortStrings(got31), want), "C07.front.31.one-component-per-reachable-type-and-no-others")
+	views := map[string][]vhSchemaView{}
+	for _, n := range want {
+		p31, _ := doc31.Components.Schemas.Get(n)
+		views[n] = []vhSchemaView{vhView30(doc30.Components.Schemas[n]), vhView31(p31)}
+	}
+	for vi, ver := range []string{"30", "31"} {
+		if reach["Inner"] {
+			v := views["Inner"][vi]
+			symxRecord("inner"+ver, strings.Join(v.props, ","), strings.Join(v.required, ","), strings.Join(v.allOf, ","))
+			// JSON-visible fields under their JSON names: hidden (unexported) and Skip (json:"-") are not properties
+			symxAssert(vhSameStrings(v.props, vhSortStrings([]string{"name", "F0", "f1"})), "C07.front."+ver+".properties-are-the-json-visible-fields")
+			symxAssert(vhSameStrings(v.required, []string{"name"}), "C07.front."+ver+".required-lists-fields-validated-as-required")
+			symxAssert(v.isAllOf && vhSameStrings(v.allOf, []string{"#/components/schemas/Base"}), "C07.front."+ver+".embedded-struct-via-allOf")
+		}
+		if reach["Color"] {
+			v := views["Color"][vi]
+			symxAssert(v.typ == "string" && vhSameStrings(vhSortStrings(v.enum), []string{"blue", "red"}), "C07.front."+ver+".enum-lists-exactly-its-constants")
+		}
+		if reach["ID"] {
+			v := views["ID"][vi]
+			symxAssert(v.typ == "string" && len(v.enum) == 0 && len(v.props) == 0, "C07.front."+ver+".alias-maps-to-its-primitive")
+		}
+	}
+}
